@@ -221,7 +221,7 @@ def check(ctx):
     shapes = {(bool(e["children"]), bool(set(e["descendants"]) - set(e["children"])), e["parent"] != 0, e["cyclic"])
               for e, m in cases if m == "plain"}
     if len(shapes) < 8:
-        raise core.Machinery("vacuity: only %d table shapes enumerated" % len(shapes))
+        core.vacuity("only %d table shapes enumerated" % len(shapes))
     functional.run_cases(ctx, "tables", cases, run_chunk, sig_fn, chunk=100)
     check_big(ctx)
 
